@@ -314,6 +314,10 @@ class Result:
         self.coverage = {}
         self.assumptions = []
         self.notes = []
+        if os.path.isdir(REPLAY):
+            for fn in os.listdir(REPLAY):
+                if fn.startswith(pid + "_"):
+                    os.remove(os.path.join(REPLAY, fn))
 
     def violation(self, what, replay_obj, found_input=True):
         os.makedirs(REPLAY, exist_ok=True)
@@ -331,12 +335,17 @@ class Result:
         for fid in sorted(self.known):
             print("KNOWN-FINDING: property=%s %s %s" % (self.pid, fid, self.known[fid].strip()))
         seen = set()
+        # a found input always outranks a "no-failing-input-found" report
+        any_found = any(f for _, _, f in self.violations)
         for what, path, found in self.violations:
-            if path in seen:
+            if path in seen or (any_found and not found):
                 continue
             seen.add(path)
-            log("violation:", what)
-            print("VIOLATION property=%s replay=%s%s" % (self.pid, path, "" if found else " no-failing-input-found"))
+            if len(seen) <= 8:
+                log("violation:", what)
+                print("VIOLATION property=%s replay=%s%s" % (self.pid, path, "" if found else " no-failing-input-found"))
+        if len(seen) > 8:
+            log("(%d further violations not printed; see %s)" % (len(seen) - 8, REPLAY))
         ev = {
             "property_id": self.pid, "tier": self.tier, "seed": self.seed, "level": level,
             "coverage": self.coverage, "assumptions": self.assumptions,
